@@ -8,6 +8,11 @@ Proof.
   destruct k as [|k]; cbn in *; [congruence|]. now rewrite (IH k H).
 Qed.
 
+Lemma nth_skipn {A} (l : list A) : forall n i, nth_error (skipn n l) i = nth_error l (n + i).
+Proof.
+  induction l as [|a l IH]; intros n i; [destruct n, i; reflexivity|]. destruct n; [reflexivity|]. cbn. apply IH.
+Qed.
+
 Lemma prefix_len {A} (l s : list A) : s = firstn (length s) l -> length s <= length l.
 Proof. intros H. rewrite H, firstn_length. lia. Qed.
 
@@ -290,7 +295,9 @@ Section Tee.
     - intros c0 E. upd_cases; [discriminate|]. now apply Hendck.
     - intros c0 E. upd_cases; [|now apply Hstop].
       apply Hcells, full_end in Hcell. specialize (Hseenlen c). rewrite Hr in Hseenlen.
-      rewrite (Hseen c). replace (length (tseen s c)) with (length src0) by lia. apply firstn_all.
+      rewrite (Hseen c). pose proof (Hstartb c).
+      replace (length (tseen s c)) with (length (skipn (tstart s c) src0)) by (rewrite skipn_length; lia).
+      apply firstn_all.
   Qed.
 
   Lemma endck_core s c : Core s -> tphase s c = TIdle -> tcells s (tlink s c) = Some CEnd ->
@@ -314,10 +321,11 @@ Section Tee.
   Lemma advance_core s c v (direct : bool) : Core s -> tphase s c = TIdle -> tcells s (tlink s c) = Some (CVal v) ->
     Core (mkT (tmode s) (tsrc s) (tcells s) (towner s) (twait s) (upd (tlink s) c (S (tlink s c)))
               (upd (tyielded s) c true) (upd (tphase s) c (if direct then TIdle else TRetSh v)) (tn s)
-              (if direct then upd (tseen s) c (tseen s c ++ [v]) else tseen s) (tstopped s) (tpolled s)).
+              (if direct then upd (tseen s) c (tseen s c ++ [v]) else tseen s) (tstopped s) (tpolled s)
+              (tstart s) (tcks s) (tlocks s)).
   Proof.
     intros H Hc Hcell. core_fields H.
-    set (s' := mkT _ _ _ _ _ _ _ _ _ _ _ _).
+    set (s' := mkT _ _ _ _ _ _ _ _ _ _ _ _ _ _ _).
     assert (Hp' : pending s' = pending s).
     { unfold pending, s'. cbn. apply pending_set. intros _. rewrite Hc. now destruct direct. }
     assert (Hnw : ~ In c (twait s)) by (intros I; specialize (Hwait c I); congruence).
@@ -326,24 +334,27 @@ Section Tee.
     assert (Hlt : tlink s c + pending s < length (tpolled s)).
     { destruct (Nat.lt_ge_cases (tlink s c + pending s) (length (tpolled s))) as [L|L]; [exact L|].
       apply Hnone in L. congruence. }
-    assert (Hlen : length (tseen s c) = tlink s c) by (specialize (Hseenlen c); lia).
+    assert (Hlen : tstart s c + length (tseen s c) = tlink s c) by (specialize (Hseenlen c); lia).
+    assert (Hv' : nth_error (skipn (tstart s c) src0) (length (tseen s c)) = Some v).
+    { rewrite nth_skipn, Hlen. exact Hv. }
     constructor; rewrite ?Hp'; unfold s';
-      cbn [tpolled tsrc tcells towner twait tlink tphase tseen tstopped tyielded]; auto.
+      cbn [tpolled tsrc tcells towner twait tlink tphase tseen tstopped tyielded tstart]; auto.
     - intros c0. upd_cases; [lia|apply Hlink].
     - intros c0 x E. upd_cases; [destruct direct; discriminate|]. now apply Hfill.
     - intros c0 E. upd_cases; [destruct direct; discriminate|]. now apply Hyield.
     - intros w I. upd_cases; [contradiction|]. now apply Hwait.
     - intros c0. destruct direct; [|apply Hseen]. upd_cases; [|apply Hseen].
-      rewrite app_length. cbn [length]. rewrite Nat.add_1_r, Hlen, (firstn_snoc _ _ _ Hv).
-      f_equal. rewrite <- Hlen. apply Hseen.
+      rewrite app_length. cbn [length]. rewrite Nat.add_1_r, (firstn_snoc _ _ _ Hv').
+      f_equal. apply Hseen.
     - intros c0. specialize (Hseenlen c0). unfold retp in *. cbn.
       destruct direct; upd_cases; try exact Hseenlen; rewrite ?app_length; cbn [length]; lia.
     - intros c0 v0 E. destruct direct; upd_cases; try discriminate; try (now apply Hret).
       injection E as <-. now rewrite Hlen.
     - intros c0 E. upd_cases; [destruct direct; discriminate|]. now apply Hendck.
     - intros c0 E. destruct direct; [|now apply Hstop]. upd_cases; [|now apply Hstop].
-      exfalso. specialize (Hstop c E). rewrite Hstop in Hlen. rewrite <- Hlen in Hv.
-      assert (length src0 < length src0) by (apply nth_error_Some; congruence). lia.
+      exfalso. specialize (Hstop c E). rewrite Hstop in Hv'.
+      assert (length (skipn (tstart s c) src0) < length (skipn (tstart s c) src0)) by (apply nth_error_Some; congruence).
+      lia.
   Qed.
 
   (* M9b: the consumer resumes from the final shielded checkpoint and returns v *)
@@ -355,20 +366,22 @@ Section Tee.
     assert (Hnw : ~ In c (twait s)) by (intros I; specialize (Hwait c I); congruence).
     assert (Hr : retp s c = 1) by (unfold retp; now rewrite Hc).
     pose proof (Hret c v Hc) as Hv.
+    assert (Hv' : nth_error (skipn (tstart s c) src0) (length (tseen s c)) = Some v) by (rewrite nth_skipn; exact Hv).
     constructor; rewrite ?Hp';
-      cbn [t_return tpolled tsrc tcells towner twait tlink tphase tseen tstopped tyielded]; auto.
+      cbn [t_return tpolled tsrc tcells towner twait tlink tphase tseen tstopped tyielded tstart]; auto.
     - intros c0 x E. upd_cases; [discriminate|]. now apply Hfill.
     - intros c0 E. upd_cases; [discriminate|]. now apply Hyield.
     - intros w I. upd_cases; [contradiction|]. now apply Hwait.
     - intros c0. upd_cases; [|apply Hseen].
-      rewrite app_length. cbn [length]. rewrite Nat.add_1_r, (firstn_snoc _ _ _ Hv). f_equal. apply Hseen.
+      rewrite app_length. cbn [length]. rewrite Nat.add_1_r, (firstn_snoc _ _ _ Hv'). f_equal. apply Hseen.
     - intros c0. specialize (Hseenlen c0). unfold retp in *. cbn.
       upd_cases; [|exact Hseenlen]. rewrite app_length. cbn [length]. rewrite Hc in Hseenlen. lia.
     - intros c0 v0 E. upd_cases; [discriminate|]. now apply Hret.
     - intros c0 E. upd_cases; [discriminate|]. now apply Hendck.
     - intros c0 E. upd_cases; [|now apply Hstop].
-      exfalso. specialize (Hstop c E). rewrite Hstop in Hv.
-      assert (length src0 < length src0) by (apply nth_error_Some; congruence). lia.
+      exfalso. specialize (Hstop c E). rewrite Hstop in Hv'.
+      assert (length (skipn (tstart s c) src0) < length (skipn (tstart s c) src0)) by (apply nth_error_Some; congruence).
+      lia.
   Qed.
 
   (* M3: __anext__ after fill() *)
@@ -444,12 +457,46 @@ Section Tee.
       now apply fill_inv.
   Qed.
 
-  Lemma step_inv s o : TInv s -> TInv (fst (tstep1 s o)).
+  Definition Fresh (s : tst) : Prop := forall c, tphase s c <> TIdle -> c < tn s.
+
+  Lemma on_new_old {A} s k (f : nat -> A) v j : j < tn s -> on_new s k f v j = f j.
+  Proof. intros H. unfold on_new. destruct (Nat.leb_spec (tn s) j); [lia|reflexivity]. Qed.
+
+  Lemma fresh_idle s j : Fresh s -> tn s <= j -> tphase s j = TIdle.
   Proof.
-    intros [H HO]. unfold tstep1.
-    destruct (tstep0 s o) as [[s1 r] ev] eqn:E. cbn [fst].
-    assert (Hs1 : s1 = fst (fst (tstep0 s o))) by now rewrite E. rewrite Hs1. clear E Hs1 s1 r ev.
-    destruct o as [c|c]; unfold tstep0.
+    intros HF Hj. destruct (tphase s j) eqn:E; try reflexivity;
+      (assert (j < tn s) by (apply HF; rewrite E; discriminate); lia).
+  Qed.
+
+  (* tee(it_c, k): k new consumers at it_c's link *)
+  Lemma copy_core s c k : Core s -> Fresh s -> Core (t_copy s c k).
+  Proof.
+    intros H HF. core_fields H.
+    assert (Hp' : pending (t_copy s c k) = pending s) by reflexivity.
+    assert (Hold : forall j, tphase s j <> TIdle -> j < tn s) by exact HF.
+    pose proof (link_bound s c H) as Hb.
+    constructor; rewrite ?Hp';
+      cbn [t_copy tpolled tsrc tcells towner twait tlink tphase tseen tstopped tyielded tstart]; auto.
+    - intros j. unfold on_new. destruct (_ && _); [apply Hlink|apply Hlink].
+    - intros j x E. rewrite on_new_old by (apply Hold; rewrite E; discriminate). now apply Hfill.
+    - intros j. unfold on_new. destruct (_ && _); [reflexivity|apply Hseen].
+    - intros j. unfold on_new. destruct (Nat.leb_spec (tn s) j) as [L|L]; cbn [andb].
+      + destruct (j <? tn s + k); [|apply Hseenlen]. unfold retp. cbn [t_copy tphase]. rewrite (fresh_idle s j HF L). cbn. lia.
+      + apply Hseenlen.
+    - intros j v E. rewrite !on_new_old by (apply Hold; rewrite E; discriminate). now apply Hret.
+    - intros j E. rewrite on_new_old by (apply Hold; rewrite E; discriminate). now apply Hendck.
+    - intros j. unfold on_new. destruct (_ && _); [discriminate|apply Hstop].
+    - intros j. unfold on_new. destruct (_ && _); [exact Hb|apply Hstartb].
+  Qed.
+
+  Lemma bump_core s c n : Core s -> Core (t_bump s c n).
+  Proof. intros H. destruct H. constructor; assumption. Qed.
+
+  Lemma step0_inv s o : TInv s -> Fresh s -> TInv (fst (fst (tstep0 s o))).
+  Proof.
+    intros [H HO] HF.
+    destruct o as [c|c|c k]; unfold tstep0; [| |destruct (c <? tn s); cbn [fst]; [|split; assumption];
+                                                split; [now apply copy_core|exact HO]].
     - destruct (negb (c <? tn s) || negb (is_tidle (tphase s c))) eqn:G; [split; assumption|].
       assert (Hc : tphase s c = TIdle).
       { apply orb_false_elim in G as [_ G]. destruct (tphase s c); cbn in G; try discriminate. reflexivity. }
@@ -486,19 +533,133 @@ Section Tee.
           intros o Hoc. cbn. now rewrite upd_other.
   Qed.
 
-  Lemma run_inv mode n ops : TInv (trun mode src0 n ops).
+  (* phases: a step changes the phase of its own consumer only, never lowers tn, and does nothing for a consumer
+     that does not exist *)
+  Lemma release_phase0 s : tphase (t_release s) = tphase s /\ tn (t_release s) = tn s.
+  Proof. unfold t_release. destruct (twait s); auto. Qed.
+
+  Lemma finish_tn s c had : tn (fst (fst (t_finish s c had))) = tn s.
   Proof.
-    unfold trun. apply (final_inv tstep1 TInv).
-    - intros s o. apply step_inv.
-    - split; [apply core_init|]. intros o E. discriminate.
+    unfold t_finish. destruct (tcells s (tlink s c)) as [[v|]|]; [destruct had|destruct (tyielded s c)|]; reflexivity.
   Qed.
+
+  Lemma fresh_step0 s o : Fresh s -> Fresh (fst (fst (tstep0 s o))).
+  Proof.
+    intros HF j. destruct o as [c|c|c k]; unfold tstep0.
+    - destruct (negb (c <? tn s) || negb (is_tidle (tphase s c))) eqn:G; [apply HF|].
+      apply orb_false_elim in G as [G _]. apply negb_false_iff, Nat.ltb_lt in G.
+      destruct (tcells s (tlink s c)).
+      + destruct (finish_frame s c false) as (_ & _ & Ef). rewrite finish_tn.
+        destruct (Nat.eq_dec j c); [subst; intros _; exact G|]. rewrite Ef by assumption. apply HF.
+      + destruct (towner s); [|destruct (twait s)]; cbn; unfold upd;
+          (destruct (Nat.eqb_spec j c); [subst; intros _; exact G|apply HF]).
+    - destruct (negb (c <? tn s)) eqn:G; [apply HF|]. apply negb_false_iff, Nat.ltb_lt in G.
+      assert (Hl : forall j, tphase (fst (fst (t_locked s c))) j <> TIdle -> j < tn (fst (fst (t_locked s c)))).
+      { clear j. intros j. unfold t_locked, t_fill.
+        destruct (tcells (t_wake s c) (tlink (t_wake s c) c)).
+        - destruct (finish_frame (t_release (t_wake s c)) c true) as (_ & _ & Ef). rewrite finish_tn.
+          destruct (release_phase0 (t_wake s c)) as [Ep En]. rewrite En.
+          destruct (Nat.eq_dec j c); [subst; intros _; exact G|]. rewrite Ef, Ep by assumption.
+          cbn. rewrite upd_other by assumption. apply HF.
+        - destruct (tmode s) as [|[|m]]; cbn [fst].
+          + cbn. unfold upd. destruct (Nat.eqb_spec j c); [subst; intros _; exact G|].
+            destruct (Nat.eqb_spec j c); [contradiction|apply HF].
+          + destruct (finish_frame (t_release (t_store (t_poll (t_wake s c) c) c (next_cell (t_wake s c)))) c true)
+              as (_ & _ & Ef). rewrite finish_tn.
+            destruct (release_phase0 (t_store (t_poll (t_wake s c) c) c (next_cell (t_wake s c)))) as [Ep En].
+            rewrite En. destruct (Nat.eq_dec j c); [subst; intros _; exact G|]. rewrite Ef, Ep by assumption.
+            cbn. rewrite !upd_other by assumption. apply HF.
+          + cbn. unfold upd. destruct (Nat.eqb_spec j c); [subst; intros _; exact G|].
+            destruct (Nat.eqb_spec j c); [contradiction|apply HF]. }
+      destruct (tphase s c) eqn:Hc; try apply HF; try apply Hl.
+      + destruct (owner_is (towner s) c); [apply Hl|apply HF].
+      + unfold t_fill.
+        destruct (finish_frame (t_release (t_store s c x)) c true) as (_ & _ & Ef). rewrite finish_tn.
+        destruct (release_phase0 (t_store s c x)) as [Ep En]. rewrite En.
+        destruct (Nat.eq_dec j c); [subst; intros _; exact G|]. rewrite Ef, Ep by assumption.
+        cbn. rewrite upd_other by assumption. apply HF.
+      + cbn. unfold upd. destruct (Nat.eqb_spec j c); [subst; intros _; exact G|apply HF].
+      + cbn. unfold upd. destruct (Nat.eqb_spec j c); [subst; intros _; exact G|apply HF].
+    - destruct (c <? tn s); [|apply HF]. cbn. intros E. specialize (HF j E). lia.
+  Qed.
+
+  Definition TInv2 (s : tst) : Prop := TInv s /\ Fresh s.
+
+  Lemma step_inv s o : TInv2 s -> TInv2 (fst (tstep1 s o)).
+  Proof.
+    intros [HI HF]. unfold tstep1, tstep.
+    pose proof (step0_inv s o HI HF) as [HC HO]. pose proof (fresh_step0 s o HF) as HF'.
+    destruct (tstep0 s o) as [[s1 r] ev]. cbn [fst] in *.
+    split; [split; [now apply bump_core|exact HO]|exact HF'].
+  Qed.
+
+  Lemma run_inv2 mode n ops : TInv2 (trun mode src0 n ops).
+  Proof.
+    unfold trun. apply (final_inv tstep1 TInv2).
+    - intros s o. apply step_inv.
+    - split; [split; [apply core_init|intros o E; discriminate]|]. intros c E. cbn in E. congruence.
+  Qed.
+
+  Lemma run_inv mode n ops : TInv (trun mode src0 n ops).
+  Proof. apply run_inv2. Qed.
 End Tee.
+
+(* frame facts of one step *)
+Lemma release_ghost s : tstart (t_release s) = tstart s /\ tcks (t_release s) = tcks s /\ tn (t_release s) = tn s.
+Proof. unfold t_release. destruct (twait s); auto. Qed.
+
+Lemma finish_ghost s c had :
+  let s' := fst (fst (t_finish s c had)) in tstart s' = tstart s /\ tcks s' = tcks s /\ tn s' = tn s.
+Proof.
+  unfold t_finish. destruct (tcells s (tlink s c)) as [[v|]|]; [destruct had|destruct (tyielded s c)|]; cbn; auto.
+Qed.
+
+Lemma step0_ghost s o :
+  tn s <= tn (fst (fst (tstep0 s o))) /\
+  (forall j, j < tn s -> tstart (fst (fst (tstep0 s o))) j = tstart s j) /\
+  match o with TCopy _ _ => True | _ => tcks (fst (fst (tstep0 s o))) = tcks s end.
+Proof.
+  destruct o as [c|c|c k]; unfold tstep0, t_locked, t_fill.
+  - destruct (_ || _); [auto|]. destruct (tcells s (tlink s c)).
+    + destruct (finish_ghost s c false) as (A & B & C). rewrite A, B, C. auto.
+    + destruct (towner s); [|destruct (twait s)]; cbn; auto.
+  - destruct (negb _); [auto|].
+    assert (L : forall s0, tn s0 = tn s -> tstart s0 = tstart s -> tcks s0 = tcks s ->
+                let s' := fst (fst (t_finish (t_release s0) c true)) in
+                tn s <= tn s' /\ (forall j, j < tn s -> tstart s' j = tstart s j) /\ tcks s' = tcks s).
+    { intros s0 E1 E2 E3. destruct (finish_ghost (t_release s0) c true) as (A & B & C).
+      destruct (release_ghost s0) as (A' & B' & C'). cbn zeta. rewrite A, B, C, A', B', C', E1, E2, E3. auto. }
+    destruct (tphase s c); auto.
+    + destruct (tcells (t_wake s c) (tlink (t_wake s c) c)); [apply L; reflexivity|].
+      destruct (tmode s) as [|[|m]]; cbn [fst]; [cbn; auto|apply L; reflexivity|cbn; auto].
+    + destruct (owner_is (towner s) c); [|auto].
+      destruct (tcells (t_wake s c) (tlink (t_wake s c) c)); [apply L; reflexivity|].
+      destruct (tmode s) as [|[|m]]; cbn [fst]; [cbn; auto|apply L; reflexivity|cbn; auto].
+  - destruct (c <? tn s); [|auto]. cbn. split; [lia|]. split; [|exact I].
+    intros j Hj. unfold on_new. destruct (Nat.leb_spec (tn s) j); [lia|reflexivity].
+Qed.
+
+Lemma step0_tn s o : tn s <= tn (fst (fst (tstep0 s o))).
+Proof. apply step0_ghost. Qed.
+Lemma step0_start_old s o j : j < tn s -> tstart (fst (fst (tstep0 s o))) j = tstart s j.
+Proof. intros H. now apply step0_ghost. Qed.
+Lemma step0_cks s o : match o with TCopy _ _ => True | _ => tcks (fst (fst (tstep0 s o))) = tcks s end.
+Proof. apply step0_ghost. Qed.
 
 (* every consumer observes a prefix of the source, in order, and the whole of it once it has seen
    StopAsyncIteration - for every interleaving of consumer segments and any number of consumers *)
+Lemma bump_fields s c n :
+  tseen (t_bump s c n) = tseen s /\ tstopped (t_bump s c n) = tstopped s /\ tphase (t_bump s c n) = tphase s /\
+  tstart (t_bump s c n) = tstart s /\ tn (t_bump s c n) = tn s /\ tlink (t_bump s c n) = tlink s /\
+  tyielded (t_bump s c n) = tyielded s.
+Proof. repeat split. Qed.
+
+(* with copies: consumer c started at link tstart s c (0 for the consumers created by the first tee() call, the
+   original's link for a copy) and observes the suffix of the source from there *)
 Theorem tee_consumers_see_all : forall mode src n ops c,
   let s := trun mode src n ops in
-  tseen s c = firstn (length (tseen s c)) src /\ (tstopped s c = true -> tseen s c = src).
+  tseen s c = firstn (length (tseen s c)) (skipn (tstart s c) src) /\
+  (tstopped s c = true -> tseen s c = skipn (tstart s c) src).
 Proof.
   intros mode src n ops c s. destruct (run_inv src mode n ops) as [H _].
   split; [apply (c_seen _ _ H)|apply (c_stop _ _ H)].
@@ -515,6 +676,38 @@ Proof.
   split; [apply (c_polled _ _ H)|apply (c_src _ _ H)].
 Qed.
 
+(* the consumers created by the first tee() call start at the beginning of the source *)
+Theorem tee_originals_start : forall mode src n ops c, c < n -> tstart (trun mode src n ops) c = 0.
+Proof.
+  intros mode src n ops c Hc. unfold trun.
+  assert (G : forall ops s, n <= tn s -> tstart s c = 0 ->
+              n <= tn (final tstep1 s ops) /\ tstart (final tstep1 s ops) c = 0).
+  { clear ops. induction ops as [|o r IH]; intros s Hn Hs; [auto|]. cbn. apply IH.
+    - unfold tstep1, tstep. pose proof (step0_tn s o). destruct (tstep0 s o) as [[s1 rr] ev]. cbn in *. lia.
+    - unfold tstep1, tstep. pose proof (step0_start_old s o c ltac:(lia)) as E.
+      destruct (tstep0 s o) as [[s1 rr] ev]. cbn in *. congruence. }
+  apply (G ops (tinit mode src n)); cbn; auto.
+Qed.
+
+(* tee(it_c, k) on an existing tee iterator: k new consumers numbered tn s … tn s + k - 1, each at it_c's current
+   link, with nothing seen, not stopped, and its own element_yielded = false; every existing consumer - it_c
+   included - is left exactly as it was *)
+Theorem tee_copy_spec : forall s c k s' r ev, tstep s (TCopy c k) = (s', r, ev) -> c < tn s ->
+  r = TCopied (tn s) /\ ev = [] /\ tn s' = tn s + k /\
+  (forall j, tn s <= j < tn s + k ->
+     tstart s' j = tlink s c /\ tlink s' j = tlink s c /\ tseen s' j = [] /\ tstopped s' j = false /\
+     tyielded s' j = false /\ tcks s' j = 0 /\ tlocks s' j = 0) /\
+  (forall j, j < tn s ->
+     tstart s' j = tstart s j /\ tlink s' j = tlink s j /\ tseen s' j = tseen s j /\ tstopped s' j = tstopped s j /\
+     tyielded s' j = tyielded s j /\ tphase s' j = tphase s j).
+Proof.
+  intros s c k s' r ev H Hc. unfold tstep, tstep0 in H. apply Nat.ltb_lt in Hc as Hb. rewrite Hb in H.
+  inversion H; subst; clear H. cbn. repeat split; try lia;
+    try (unfold on_new; destruct (Nat.leb_spec (tn s) j); destruct (Nat.ltb_spec j (tn s + k)); cbn; try lia; reflexivity).
+  unfold upd, on_new. destruct (Nat.eqb_spec j c); [lia|].
+  destruct (Nat.leb_spec (tn s) j); destruct (Nat.ltb_spec j (tn s + k)); cbn; try lia; reflexivity.
+Qed.
+
 (* the ghost fields record exactly what the consumers are given: a step that returns v to consumer c appends
    v to tseen c, a step that raises StopAsyncIteration in c sets tstopped c *)
 Lemma release_seen s : tseen (t_release s) = tseen s.
@@ -522,18 +715,47 @@ Proof. unfold t_release. destruct (twait s); reflexivity. Qed.
 Lemma release_stopped s : tstopped (t_release s) = tstopped s.
 Proof. unfold t_release. destruct (twait s); reflexivity. Qed.
 
-Theorem tee_outputs_logged : forall s o s' r ev, tstep0 s o = (s', r, ev) ->
+Lemma outputs_logged0 : forall s o s' r ev, tstep0 s o = (s', r, ev) ->
   match r with
   | TRet v => exists c, (o = TNext c \/ o = TResume c) /\ tseen s' c = tseen s c ++ [v]
   | TStop => exists c, (o = TNext c \/ o = TResume c) /\ tstopped s' c = true
   | _ => True
   end.
 Proof.
-  intros s o s' r ev H. destruct o as [c|c]; unfold tstep0, t_locked, t_fill, t_finish in H;
+  intros s o s' r ev H. destruct o as [c|c|c k]; unfold tstep0, t_locked, t_fill, t_finish in H;
     repeat match type of H with
            | context [match ?x with _ => _ end] => destruct x eqn:?
            end; inversion H; subst; clear H; cbn; auto;
     exists c; (split; [auto|]); rewrite ?upd_same, ?release_seen, ?release_stopped; reflexivity.
+Qed.
+
+Theorem tee_outputs_logged : forall s o s' r ev, tstep s o = (s', r, ev) ->
+  match r with
+  | TRet v => exists c, (o = TNext c \/ o = TResume c) /\ tseen s' c = tseen s c ++ [v]
+  | TStop => exists c, (o = TNext c \/ o = TResume c) /\ tstopped s' c = true
+  | _ => True
+  end.
+Proof.
+  intros s o s' r ev H. unfold tstep in H. destruct (tstep0 s o) as [[s1 r1] ev1] eqn:E.
+  inversion H; subst; clear H. exact (outputs_logged0 s o s1 r ev E).
+Qed.
+
+(* and the checkpoint events of a segment are attributed to the consumer that ran it *)
+Theorem tee_cks_logged : forall s o s' r ev, tstep s o = (s', r, ev) ->
+  (forall j, j <> op_consumer o -> match o with TCopy _ _ => True | _ => tcks s' j = tcks s j end) /\
+  match o with
+  | TCopy _ _ => True
+  | _ => tcks s' (op_consumer o) = tcks s (op_consumer o) + count_ck ev
+  end.
+Proof.
+  intros s o s' r ev H. unfold tstep in H. destruct (tstep0 s o) as [[s1 r1] ev1] eqn:E.
+  inversion H; subst; clear H. pose proof (step0_cks s o) as K. rewrite E in K. cbn [fst] in K.
+  destruct o as [c|c|c k]; cbn [op_consumer]; (split; [|try exact I]).
+  - intros j Hj. cbn. rewrite upd_other by exact Hj. now rewrite K.
+  - cbn. rewrite upd_same. now rewrite K.
+  - intros j Hj. cbn. rewrite upd_other by exact Hj. now rewrite K.
+  - cbn. rewrite upd_same. now rewrite K.
+  - intros; exact I.
 Qed.
 
 (* non-vacuity: three consumers of a synchronous two-element source, interleaved so that the lock is contended
@@ -552,7 +774,7 @@ Proof. vm_compute. auto. Qed.
 (* C08 for tee: every __anext__ call on a tee iterator suspends at least once - in one of the logged checkpoint
    functions or inside Lock.acquire - except a StopAsyncIteration delivered to a consumer that was already given
    an element (whose earlier calls did). *)
-Theorem tee_next_checkpoints : forall s c s' r ev, tstep0 s (TNext c) = (s', r, ev) -> r <> TRejected ->
+Lemma next_checkpoints0 : forall s c s' r ev, tstep0 s (TNext c) = (s', r, ev) -> r <> TRejected ->
   (r = TBlocked /\ (has_ck ev = true \/ tphase s' c = TLockYield \/ tphase s' c = TLockWait)) \/
   (r = TStop /\ tyielded s c = true).
 Proof.
@@ -560,6 +782,14 @@ Proof.
   repeat match type of H with
          | context [match ?x with _ => _ end] => destruct x eqn:?
          end; inversion H; subst; clear H; try congruence; cbn; rewrite ?upd_same; auto.
+Qed.
+
+Theorem tee_next_checkpoints : forall s c s' r ev, tstep s (TNext c) = (s', r, ev) -> r <> TRejected ->
+  (r = TBlocked /\ (has_ck ev = true \/ tphase s' c = TLockYield \/ tphase s' c = TLockWait)) \/
+  (r = TStop /\ tyielded s c = true).
+Proof.
+  intros s c s' r ev H Hr. unfold tstep in H. destruct (tstep0 s (TNext c)) as [[s1 r1] ev1] eqn:E.
+  inversion H; subst; clear H. exact (next_checkpoints0 s c s1 r ev E Hr).
 Qed.
 
 (* ------------------------------------------------------------------------------------------------ *)
@@ -644,7 +874,9 @@ Qed.
 Lemma live_step s o : Live s -> (forall c, tphase s c = TLockYield -> towner s = Some c) ->
   (forall c x, tphase s c = TFilling x -> towner s = Some c) -> Live (fst (fst (tstep0 s o))).
 Proof.
-  intros HL Hy Hf. destruct o as [c|c]; unfold tstep0.
+  intros HL Hy Hf. destruct o as [c|c|c k]; unfold tstep0;
+    [| |destruct (c <? tn s); [|exact HL]; cbn [fst]; destruct HL as [Hn Hl Hwt]; constructor; cbn; auto;
+        intros c0 E; specialize (Hn c0 E); lia].
   - destruct (negb (c <? tn s) || negb (is_tidle (tphase s c))) eqn:G; [exact HL|].
     apply orb_false_elim in G as [G1 G2].
     assert (Hc : c < tn s) by (apply negb_false_iff, Nat.ltb_lt in G1; exact G1).
@@ -684,17 +916,20 @@ Proof.
     + cbn [fst]. apply (live_frame s _ c TIdle); auto; discriminate.
 Qed.
 
+Lemma bump_live s c n : Live s -> Live (t_bump s c n).
+Proof. intros [A B C]. constructor; assumption. Qed.
+
 Lemma run_live src mode n ops : Live (trun mode src n ops).
 Proof.
   unfold trun.
-  assert (G : forall ops s, TInv src s /\ Live s -> TInv src (final tstep1 s ops) /\ Live (final tstep1 s ops)).
+  assert (G : forall ops s, TInv2 src s /\ Live s -> TInv2 src (final tstep1 s ops) /\ Live (final tstep1 s ops)).
   { clear. induction ops as [|o r IH]; intros s H; [exact H|]. cbn. apply IH. destruct H as [HI HL]. split.
     - now apply step_inv.
-    - unfold tstep1. destruct (tstep0 s o) as [[s1 rr] ev] eqn:E. cbn [fst].
+    - unfold tstep1, tstep. destruct (tstep0 s o) as [[s1 rr] ev] eqn:E. cbn [fst]. apply bump_live.
       replace s1 with (fst (fst (tstep0 s o))) by now rewrite E.
-      destruct HI as [HC _]. apply live_step; [exact HL|apply (c_yield _ _ HC)|].
+      destruct HI as [[HC _] _]. apply live_step; [exact HL|apply (c_yield _ _ HC)|].
       intros c x Ex. now destruct (c_fill _ _ HC c x Ex). }
-  apply G. split; [split; [apply core_init|intros o E; discriminate]|].
+  apply G. split; [apply (run_inv2 src mode n [])|].
   constructor; cbn; intros; congruence.
 Qed.
 
@@ -722,9 +957,13 @@ Qed.
 
 Theorem tee_no_deadlock : forall mode src n ops c,
   let s := trun mode src n ops in
-  tphase s c <> TIdle -> exists c', snd (fst (tstep0 s (TResume c'))) <> TRejected.
+  tphase s c <> TIdle -> exists c', snd (fst (tstep s (TResume c'))) <> TRejected.
 Proof.
   intros mode src n ops c s Hc.
+  assert (EQ : forall c', snd (fst (tstep s (TResume c'))) = snd (fst (tstep0 s (TResume c')))).
+  { intros c'. unfold tstep. destruct (tstep0 s (TResume c')) as [[s1 r1] ev1]. reflexivity. }
+  cut (exists c', snd (fst (tstep0 s (TResume c'))) <> TRejected).
+  { intros (c' & Hc'). exists c'. now rewrite EQ. }
   destruct (run_inv src mode n ops) as [HC HO]. pose proof (run_live src mode n ops) as [Hn Hl Hwt].
   fold s in HC, HO, Hn, Hl, Hwt.
   assert (R : forall o, o < tn s -> (tphase s o = TLockYield \/ (exists x, tphase s o = TFilling x) \/
@@ -752,3 +991,159 @@ Proof.
   - exists c. apply R; [apply Hn; congruence|auto].
   - exists c. apply R; [apply Hn; congruence|eauto 6].
 Qed.
+
+(* ------------------------------------------------------------------------------------------------ *)
+(* C08 per consumer, copies included: a consumer that has been told StopAsyncIteration has passed a checkpoint -
+   a logged checkpoint event of its own if its traversal yielded nothing, a logged event or a Lock.acquire()
+   otherwise.  The facts are local to each consumer. *)
+Definition ck_ok (s : tst) (c : nat) : Prop :=
+  (tyielded s c = true -> tseen s c <> [] \/ exists v, tphase s c = TRetSh v) /\
+  (tyielded s c = true -> 1 <= tcks s c + tlocks s c) /\
+  (is_lock_phase (tphase s c) = true -> 1 <= tlocks s c) /\
+  (tphase s c = TEndCk -> 1 <= tcks s c) /\
+  (tstopped s c = true -> tseen s c = [] -> 1 <= tcks s c) /\
+  (tstopped s c = true -> 1 <= tcks s c + tlocks s c).
+
+Definition same_at (s s' : tst) (j : nat) : Prop :=
+  tyielded s' j = tyielded s j /\ tseen s' j = tseen s j /\ tphase s' j = tphase s j /\
+  tstopped s' j = tstopped s j /\ tcks s' j = tcks s j /\ tlocks s' j = tlocks s j.
+
+Lemma ck_ok_same s s' j : same_at s s' j -> ck_ok s j -> ck_ok s' j.
+Proof. intros (A & B & C & D & E & F). unfold ck_ok. now rewrite A, B, C, D, E, F. Qed.
+
+Lemma release_all s :
+  tyielded (t_release s) = tyielded s /\ tseen (t_release s) = tseen s /\ tphase (t_release s) = tphase s /\
+  tstopped (t_release s) = tstopped s /\ tcks (t_release s) = tcks s /\ tlocks (t_release s) = tlocks s /\
+  tcells (t_release s) = tcells s /\ tlink (t_release s) = tlink s /\ tmode (t_release s) = tmode s.
+Proof. unfold t_release. destruct (twait s); repeat split. Qed.
+
+Ltac rel_rw :=
+  repeat match goal with
+         | |- context [t_release ?x] =>
+             let H := fresh in
+             pose proof (release_all x) as H;
+             destruct H as (?E1 & ?E2 & ?E3 & ?E4 & ?E5 & ?E6 & ?E7 & ?E8 & ?E9);
+             rewrite ?E1, ?E2, ?E3, ?E4, ?E5, ?E6, ?E7, ?E8, ?E9;
+             clear E1 E2 E3 E4 E5 E6 E7 E8 E9
+         end.
+
+(* the segments of one consumer do not touch the local facts of any other existing consumer *)
+Lemma step_same s o j : j <> op_consumer o -> (match o with TCopy _ _ => j < tn s | _ => True end) ->
+  same_at s (fst (fst (tstep s o))) j.
+Proof.
+  intros Hj Hn. unfold tstep. destruct (tstep0 s o) as [[s1 r] ev] eqn:E. cbn [fst].
+  destruct o as [c|c|c k]; cbn [op_consumer] in Hj;
+    unfold tstep0, t_locked, t_fill, t_finish in E;
+    repeat match type of E with
+           | context [match ?x with _ => _ end] => destruct x eqn:?
+           end; inversion E; subst; clear E; unfold same_at;
+    cbn -[t_release]; rel_rw; cbn -[t_release]; rewrite ?upd_other by exact Hj; rewrite ?on_new_old by exact Hn;
+    repeat split; reflexivity.
+Qed.
+
+Lemma release_yielded s : tyielded (t_release s) = tyielded s.
+Proof. unfold t_release. destruct (twait s); reflexivity. Qed.
+
+Lemma snoc_not_nil (l : list Z) v : l ++ [v] <> [].
+Proof. destruct l; discriminate. Qed.
+
+(* the consumer that runs the segment *)
+Lemma step_ck_self s o : ck_ok s (op_consumer o) -> ck_ok (fst (fst (tstep s o))) (op_consumer o).
+Proof.
+  intros K. unfold tstep. destruct (tstep0 s o) as [[s1 r] ev] eqn:E. cbn [fst].
+  destruct K as (K1 & K2 & K3 & K4 & K5 & K6).
+  destruct o as [c|c|c k]; cbn [op_consumer] in *;
+    unfold tstep0, t_locked, t_fill, t_finish in E;
+    repeat match type of E with
+           | context [match ?x with _ => _ end] => destruct x eqn:?
+           end; inversion E; subst; clear E; unfold ck_ok;
+    cbn -[t_release]; rel_rw; cbn -[t_release]; rewrite ?upd_same;
+    repeat (rewrite on_new_old by (apply Nat.ltb_lt; assumption));
+    try match goal with
+        | H : negb (_ <? _) || negb (is_tidle (tphase _ c)) = false |- _ =>
+            apply orb_false_elim in H as [_ H]; apply negb_false_iff in H;
+            destruct (tphase _ c) eqn:?; try discriminate H
+        end;
+    repeat match goal with
+           | H : tphase _ c = _ |- _ => rewrite H in *
+           end;
+    cbn [is_lock_phase] in *; rewrite ?Nat.add_0_r;
+    repeat match goal with
+           | H : tyielded (t_release ?x) _ = _ |- _ => rewrite (release_yielded x) in H; cbn in H
+           end;
+    (refine (conj _ (conj _ (conj _ (conj _ (conj _ _))))));
+    try assumption;
+    try solve [intros; first [discriminate | lia | (left; apply snoc_not_nil) | (right; eexists; reflexivity)
+                              | (specialize (K3 eq_refl); lia) | (specialize (K4 eq_refl); lia)]];
+    try solve [intros Hy; destruct (K1 Hy) as [A|[v0 A]]; [left; exact A|discriminate A]];
+    try solve [intros _ Hs; destruct (K1 ltac:(assumption)) as [A|[v0 A]]; [contradiction|discriminate A]];
+    try solve [intros _; destruct (K1 eq_refl) as [A|[v0 A]]; [left; exact A|discriminate A]];
+    try solve [intros _ Hs; destruct (K1 eq_refl) as [A|[v0 A]]; [contradiction|discriminate A]];
+    try solve [intros; exfalso; eapply snoc_not_nil; eassumption];
+    try solve [intros; pose proof (K2 ltac:(assumption)); lia];
+    try solve [intros Hs; pose proof (K6 Hs); lia];
+    try solve [intros Hs Hn; pose proof (K5 Hs Hn); lia];
+    try solve [intros Hy; pose proof (K2 Hy); lia].
+Qed.
+
+Definition CkInv (s : tst) : Prop := forall c, ck_ok s c.
+
+Lemma ck_step s o : CkInv s -> (forall c, tphase s c <> TIdle -> c < tn s) -> CkInv (fst (fst (tstep s o))).
+Proof.
+  intros K HF j. destruct (Nat.eq_dec j (op_consumer o)) as [->|Hj]; [apply step_ck_self, K|].
+  destruct o as [c|c|c k].
+  - apply (ck_ok_same s); [now apply step_same|apply K].
+  - apply (ck_ok_same s); [now apply step_same|apply K].
+  - destruct (Nat.lt_ge_cases j (tn s)) as [L|L]; [apply (ck_ok_same s); [now apply step_same|apply K]|].
+    assert (Hi : tphase s j = TIdle).
+    { destruct (tphase s j) eqn:E; try reflexivity; (assert (j < tn s) by (apply HF; rewrite E; discriminate); lia). }
+    cbn [op_consumer] in Hj. specialize (K j). unfold ck_ok in *. unfold tstep, tstep0.
+    destruct (c <? tn s); cbn; rewrite ?upd_other by exact Hj; [|rewrite ?Nat.add_0_r; exact K].
+    unfold on_new. destruct (_ && _); [|exact K]. rewrite Hi. cbn.
+    repeat split; intros; try discriminate; lia.
+Qed.
+
+Lemma run_ck src mode n ops : CkInv (trun mode src n ops).
+Proof.
+  unfold trun.
+  assert (G : forall ops s, TInv2 src s /\ CkInv s -> TInv2 src (final tstep1 s ops) /\ CkInv (final tstep1 s ops)).
+  { clear. induction ops as [|o r IH]; intros s H; [exact H|]. cbn. apply IH. destruct H as [HI HK]. split.
+    - now apply step_inv.
+    - unfold tstep1. pose proof (ck_step s o HK (proj2 HI)) as Hs. destruct (tstep s o) as [[s1 rr] ev]. exact Hs. }
+  apply G. split; [apply (run_inv2 src mode n [])|].
+  intros c. unfold ck_ok. cbn. repeat split; intros; discriminate.
+Qed.
+
+(* for every interleaving, every number of consumers and every copy made at any point (also of an exhausted
+   iterator, also copies of copies): a consumer whose traversal is complete has logged a checkpoint event of its
+   own if the traversal yielded nothing, and in any case a checkpoint event or a Lock.acquire() *)
+Theorem tee_consumer_checkpoints : forall mode src n ops c,
+  let s := trun mode src n ops in
+  tstopped s c = true ->
+  (tseen s c = [] -> 1 <= tcks s c) /\ 1 <= tcks s c + tlocks s c.
+Proof.
+  intros mode src n ops c s Hs. destruct (run_ck src mode n ops c) as (_ & _ & _ & _ & K5 & K6).
+  split; [now apply K5|now apply K6].
+Qed.
+
+(* non-vacuity: the only consumer of a synchronous source [7] is run to the end; then tee(it_0, 1) is called on
+   the exhausted iterator.  The copy starts at link 1, yields nothing, passes its own checkpoint() (one event)
+   and the source is not asked again. *)
+Example tee_copy_after_exhaustion :
+  let ops := [TNext 0; TResume 0; TResume 0; TNext 0; TResume 0; TResume 0;
+              TCopy 0 1; TNext 1; TResume 1] in
+  let s := trun 0 [7]%Z 1 ops in
+  (tseen s 0, tstopped s 0) = ([7]%Z, true) /\
+  tn s = 2 /\ tstart s 1 = 1 /\ (tseen s 1, tstopped s 1) = ([], true) /\ tcks s 1 = 1 /\ tlocks s 1 = 0 /\
+  tpolled s = [CVal 7; CEnd]%Z /\
+  snd (tstep (trun 0 [7]%Z 1 (firstn 7 ops)) (TNext 1)) = [Ck].
+Proof. vm_compute. repeat split. Qed.
+
+(* a copy of an advanced consumer sees the rest *)
+Example tee_copy_of_advanced :
+  let ops := [TNext 0; TResume 0; TResume 0; TCopy 0 2; TNext 1; TResume 1; TNext 2; TResume 1; TResume 2;
+              TNext 1; TResume 1; TResume 1; TNext 2] in
+  let s := trun 0 [7; 8]%Z 1 ops in
+  (tstart s 1, tstart s 2) = (1, 1) /\ (tseen s 0, tseen s 1, tseen s 2) = ([7], [8], [8])%Z /\
+  (tstopped s 1, tstopped s 2) = (true, true).
+Proof. vm_compute. repeat split. Qed.
